@@ -79,6 +79,9 @@ theorem readVarlena_enc (short : Bool) (d : Bytes) (h1 : 1 ≤ d.length) (h2 : d
       have a : ¬ d.length + 4 < 4 := by omega
       simp [a]
     simp only [c, Bool.false_eq_true, if_false]
+    have c2 : (4 * (d.length + 4) % 4 == 2) = false := by
+      rw [show 4 * (d.length + 4) % 4 = 0 by omega]; rfl
+    simp only [c2, Bool.false_and, Bool.false_eq_true, if_false]
     rw [slice_ok _ _ _ (by omega) (by omega)]
     have ht : ((le 4 (4 * (d.length + 4)) ++ d).take (d.length + 4)).drop 4 = d := by
       rw [List.take_of_length_le (by omega), List.drop_left' (by simp)]
